@@ -114,7 +114,10 @@ Step(S0, T0, r) ==
                 Bot(x) == S1.align # "bottom" \/ res.blank \/ IsCut(S1, x[1]) \/ r.op \in {"suspend", "mp_suspend"} \/ NextPrint(T1)[1] >= S1.bottom
                 good == {x \in ms : Cur(x) /\ Bot(x)}
                 pool == IF good # {} THEN good ELSE IF {x \in ms : Cur(x)} # {} THEN {x \in ms : Cur(x)} ELSE ms
-                mk == CHOOSE x \in pool : \A y \in pool : Cardinality(x[1].V) <= Cardinality(y[1].V) /\ (Cardinality(x[1].V) = Cardinality(y[1].V) => x[2] <= y[2])
+                (* ... and among those the one that puts the new log lines highest: a later log line may go anywhere after the last one, so *)
+                (* when several placements explain the screen (blank lines, once blank rows are ignored) the highest constrains the least *)
+                minV == {x \in pool : \A y \in pool : Cardinality(x[1].V) <= Cardinality(y[1].V)}
+                mk == CHOOSE x \in minV : \A y \in minV : x[1].p <= y[1].p
                 c == mk[1]
                 k == mk[2]
                 total == Total(mk)
